@@ -371,6 +371,10 @@ impl PropCheck for C08 {
     fn case_from_json(&self, v: &Value) -> Result<Case, String> {
         serde_json::from_value(v["case"].clone()).map_err(|e| e.to_string())
     }
+
+    fn owns_case(&self, v: &Value) -> bool {
+        v["case"].get("convert_host").is_none()
+    }
 }
 
 pub fn eval_case(prop: &'static str, c: &Case) -> Outcome {
@@ -451,6 +455,16 @@ pub fn run(prop: &'static str, tier: Tier, seed: u64, findings: &Findings) -> i3
     report.merge(super::run_regress(&check, &cfg, findings));
     let cases = tier.pick(300_000, 10_000_000);
     report.merge(engine::run_generated(&check, &cfg, cases, 16, 16, findings, 0));
+    if prop == "C10" {
+        // the same arithmetic over sheets with @import conditions (rewritten into placeholder wrappers when an import sign
+        // is set) and :host rules (moved to the low-priority output)
+        let mut ccfg = gen::css::CssCfg::new();
+        ccfg.hosts = true;
+        ccfg.imports = true;
+        let wide = super::c17::C17 { prop: "C10", cfg: ccfg };
+        report.merge(super::run_regress(&wide, &cfg, findings));
+        report.merge(engine::run_generated(&wide, &cfg, tier.pick(100_000, 3_000_000), 16, 16, findings, 1));
+    }
     let rule = match prop {
         "C09" => "cases = generated stylesheets (all at-rules, selector functions nested to depth 3, escaped / non-ASCII class names, decoys in non-selector positions) x {prefix none/empty/ascii/non-ascii} x {sign on/off}. Oracle: in the re-tokenised output exactly the model's class-selector identifiers are `P--name` (each preceded by exactly one sign comment when a sign is configured) and every other identifier is unchanged. non-trivial = a class below selector-function depth 1 or inside an at-rule; distinct by source.",
         "C10" => "cases = generated stylesheets with numeric tokens (integers over the i32 range and its boundaries, decimals to 9 places, exponents, signs, leading dot, percentages, every unit incl. rpx in declarations, functions, queries, preludes) x rpx_ratio in {750,375,10,1,7.5,0.001,30000}. Oracle per aligned numeric token: rpx -> unit vw and |out - v*100/ratio| <= 2*f32::EPSILON*|expected|; integers of other units exactly; other non-integers within the same epsilon; units other than rpx unchanged (output parsed from text by our own scanner). non-trivial = a numeric spelling with > 6 significant digits; distinct by source.",
@@ -463,6 +477,9 @@ pub fn run(prop: &'static str, tier: Tier, seed: u64, findings: &Findings) -> i3
 }
 
 pub fn replay(prop: &'static str, v: &Value, path: &str, findings: &Findings) -> i32 {
+    if prop == "C10" && v["case"]["case"].get("convert_host").is_some() {
+        return super::c17::replay("C10", v, path, findings);
+    }
     let check = C08 { prop, cfg: gen::css::CssCfg::new() };
     super::replay_generic(&check, prop, v, path, findings)
 }
